@@ -142,9 +142,17 @@ package locking
 //@   ensures r.Limit > 0 ==> has(result, "limit")
 //@ func (*github.com/git-lfs/git-lfs/v3/lfsapi.Client).DoAPIRequestWithAuth
 //@   assumed
-//@   props C18
+//@   props C18 C10
 //@   modifies heap
 //@   ensures result1 == nil ==> result0 != nil
+// Checked although the contract is assumed: the request goes to DoWithAuth as
+// it came - the same request for the same remote, its Authorization header
+// untouched (the only place that adds one is the credential path behind
+// DoWithAuth, which checks the origin).
+//@   requires @inv c != nil && req != nil
+//@   at call (*lfsapi.Client).DoWithAuth:* assert @C10 arg0__ == c && arg1__ == old(remote) && arg3__ == old(req) && req.Header == old(req.Header) && has(req.Header, "Authorization") == old(has(req.Header, "Authorization")) && req.Header["Authorization"] == old(req.Header["Authorization"])
+//@ iface (github.com/git-lfs/git-lfs/v3/lfsapi.EndpointFinder).Endpoint
+//@   modifies fresh
 
 // C16: looking a path (or id) up among the cached own locks examines every
 // cached lock until the limit of *matches* is reached: the list that is walked
